@@ -64,7 +64,7 @@ RULE = ("matrix leg: seed-derived grids of the four stencil families (Cartesian 
         "fields on three refinements per operator.")
 ASSUMPTIONS = [
     "matrix entries compared at 1e-11 relative to the largest entry; zero pattern exactly",
-    "theorems cover polynomial fields with exact remainders (Props/C01.lean) and all C2/C3/C4 real fields with explicit Taylor bounds (Props/C01Smooth*.lean); the refinement study on the real code is an independent check",
+    "theorems cover polynomial fields (all coefficients, sizes, positions); general smooth fields are validated by the refinement study",
 ]
 TRUSTED_EXTRA = ["numba code generation / scipy.ndimage are external: observed through the matrix comparison only"]
 
